@@ -25,14 +25,14 @@ SEPS = ["://", ":/", ":", "//", ""]
 USERINFO = ["", "u:p@"]
 HOSTS = ["example.com", "EXAMPLE.com", "127.0.0.1", "[::1]", "[2001:db8::1]", ""]
 PORTS = [None, "1", "79", "80", "81", "443", "8080", "65535", "65536", "x", "0", ""]
-PATHS = ["", "/", "/p/q"]
-QUERIES = [None, "a=1"]
+PATHS = ["", "/", "/p/q", "/users/@me"]
+QUERIES = [None, "a=1", "mail=bob@mail.test:99"]
 OUTCOMES = ["accept", errno.ECONNREFUSED, errno.ENETUNREACH, errno.ETIMEDOUT]
 OTHERS = [errno.ETIMEDOUT, errno.EHOSTUNREACH, errno.EPERM]
 
 
 def bounds(tier):
-    return "URL grid of 30240 strings%s; 340 address lists x {IPv4, IPv6, mixed} x 2 option sets x 2 timeouts x 3 'other' errno values; 36 ordered pairs of settings for successive connections" % (
+    return "URL grid of 60480 strings%s; 340 address lists x {IPv4, IPv6, mixed} x 2 option sets x 2 timeouts x 3 'other' errno values; 36 ordered pairs of settings for successive connections" % (
         " + all ports 1..65535" if tier == "thorough" else " + ports 1..65535 step 257")
 
 
@@ -64,6 +64,7 @@ def tasks(tier, seed):
         ts.append({"part": "addrs", "k": k, "name": "addrs/%d" % k})
     ts.append({"part": "history", "name": "history"})
     ts.append({"part": "scoped", "name": "scoped"})
+    ts.append({"part": "redirect-scheme", "name": "redirect-scheme"})
     return ts
 
 
@@ -308,6 +309,70 @@ def scoped_case(kinds, dup):
     return None
 
 
+def redirect_scheme_case(urls, rstatus):
+    """A redirect chain that changes (or keeps) the scheme on the SAME host and port. Whether a hop re-uses the connection of the previous
+    hop or opens a new one is not specified - but the request of a wss hop travels inside TLS on a transport that carried no plaintext
+    before, and the request of a ws hop travels in the clear."""
+    import socket as S
+    from urllib.parse import urlparse
+    lib.reset_globals()
+    env.install_urandom("counter")
+    net = simnet.Net()
+    net.resolver = lambda host, port: [(S.AF_INET, "192.0.2.44")]
+    seen = []  # per request: (socket idx, wrapped?, plaintext bytes on that socket before the wrap)
+
+    class P:
+        def __init__(self, sock):
+            self.mark = 0
+
+        def on_send(self, sock, data):
+            w = bytes(sock.written)
+            if b"\r\n\r\n" not in w[self.mark:]:
+                return
+            k = len(seen)
+            try:
+                req = HS.parse_request(w[self.mark:])
+            except Exception:
+                req = None
+            self.mark = len(w)
+            seen.append((sock.idx, sock.tls is not None, len(sock.tls["written_before_wrap"]) if sock.tls else None, req["target"] if req else None))
+            if req is None:
+                return
+            if k + 1 < len(urls):
+                sock.stream += ("HTTP/1.1 %d Moved\r\nLocation: %s\r\nContent-Length: 0\r\n\r\n" % (rstatus, urls[k + 1])).encode()
+            else:
+                sock.stream += HS.response_101(req["key"])
+
+    net.peer_for = lambda n_, s_, a_: P(s_)
+    simnet.install(net)
+    try:
+        ws = lib.websocket.WebSocket()
+        try:
+            ws.connect(urls[0])
+            out = None
+        except Exception as e:
+            out = e
+    finally:
+        simnet.uninstall()
+    label = "redirect chain %s (%d)" % (" -> ".join(urls), rstatus)
+    sig = {"kind": "redirect-scheme", "schemes": "->".join(urlparse(u).scheme for u in urls)}
+    if out is not None and not isinstance(out, (lib.websocket.WebSocketException, OSError)):
+        return (dict(sig, kind="unexpected-exception", exc=type(out).__name__), "%s: connect() raised %r" % (label, out))
+    for k, (idx, wrapped, before, target) in enumerate(seen):
+        if k >= len(urls):
+            break
+        secure = urlparse(urls[k]).scheme == "wss"
+        if secure and (not wrapped or before):
+            return (dict(sig, hop=k, how="wss-request-in-the-clear" if not wrapped else "plaintext-before-tls"),
+                    "%s: the request of hop %d (%s) travelled on transport %d %s" % (
+                        label, k + 1, urls[k], idx, "without TLS" if not wrapped else "that had carried %d plaintext bytes before TLS started" % before))
+        if not secure and wrapped:
+            return (dict(sig, hop=k, how="ws-request-inside-tls"), "%s: the request of hop %d (%s) travelled inside TLS on transport %d" % (label, k + 1, urls[k], idx))
+    if out is None and len(seen) < len(urls):
+        return (dict(sig, how="hops-missing"), "%s: connected after %d of %d requests" % (label, len(seen), len(urls)))
+    return None
+
+
 def _settings():
     import socket as S
     A, B = (S.SOL_SOCKET, S.SO_RCVBUF, 12345), (S.SOL_SOCKET, S.SO_SNDBUF, 23456)
@@ -385,6 +450,14 @@ def run_task(desc):
                 n += 1
                 rec(guarded(url_case, u, p % 64 == 1), {"case": "url", "url": u})
         res["samples"].append({"ports": [desc["lo"], desc["hi"] - 1, desc["step"]]})
+    elif desc["part"] == "redirect-scheme":
+        for port in ("", ":8443", ":80", ":443"):
+            for chain in (("ws", "wss"), ("wss", "ws"), ("ws", "ws"), ("wss", "wss"), ("ws", "wss", "ws"), ("wss", "ws", "wss")):
+                for rstatus in (301, 302, 307):
+                    urls = ["%s://h.example%s/hop%d" % (sc, port, i) for i, sc in enumerate(chain)]
+                    n += 1
+                    rec(guarded(redirect_scheme_case, urls, rstatus), {"case": "redirect-scheme", "args": [urls, rstatus]})
+        res["samples"].append({"redirect_scheme_chains": n})
     elif desc["part"] == "scoped":
         for k in (1, 2, 3):
             for kinds in itertools.product(["accept", errno.ECONNREFUSED, errno.ENETUNREACH], repeat=k):
@@ -422,6 +495,8 @@ def replay(rep):
         f = history_case(*rep["args"])
     elif rep["case"] == "scoped":
         f = scoped_case(*rep["args"])
+    elif rep["case"] == "redirect-scheme":
+        f = redirect_scheme_case(*rep["args"])
     else:
         a = rep["args"]
         f = addr_case(tuple(a[0]), a[1], a[2], a[3], a[4] if len(a) > 4 else "settimeout", a[5] if len(a) > 5 else "v4")
